@@ -127,6 +127,30 @@ let parse_sexps (src : string) : sexp list =
   let rec top () = skip (); if !pos < n then (res := one () :: !res; top ()) in
   top (); List.rev !res
 
+(* the same, one top-level form at a time: a package is converted, analysed and dropped before the next one is parsed *)
+let iter_sexps (src : string) (f : sexp -> unit) : unit =
+  let n = String.length src in
+  let pos = ref 0 in
+  let depth = ref 0 and start = ref (-1) and instr = ref false in
+  while !pos < n do
+    let ch = src.[!pos] in
+    if !instr then begin
+      if ch = '\\' then pos := !pos + 2
+      else if ch = '"' then instr := false
+    end else begin
+      if ch = '"' then instr := true
+      else if ch = '(' then (if !depth = 0 then start := !pos; incr depth)
+      else if ch = ')' then begin
+        decr depth;
+        if !depth = 0 && !start >= 0 then begin
+          (match parse_sexps (String.sub src !start (!pos - !start + 1)) with x :: _ -> f x | [] -> ());
+          start := -1
+        end
+      end
+    end;
+    incr pos
+  done
+
 let cs = chars_of_string
 let atom_int = function A s -> int_of_string s | _ -> failwith "int expected"
 let qstr = function Q s -> s | A "_" -> "" | _ -> failwith "string expected"
@@ -268,9 +292,8 @@ let ann_summary (a : annots) : string =
 (* analyze <dump> <scan 0|1> <hex paths> <hex checks> *)
 let run_analyze (dump : string) (scan : string) (paths : string) (checks : string) =
   let cfg = { scan_tests = (scan = "1"); exclude_paths = unhex_list paths; exclude_checks = unhex_list checks } in
-  let pkgs = List.map conv_pkg (parse_sexps (read_file dump)) in
   let facts : (string, annots) Hashtbl.t = Hashtbl.create 64 in
-  List.iter (fun p ->
+  iter_sexps (read_file dump) (fun sx -> let p = conv_pkg sx in
       let all = List.filter_map (fun (path, id) -> match Hashtbl.find_opt facts id with Some a -> Some (cs path, a) | None -> None) p.limports in
       Printf.printf "W %s %d\n" (hex_encode p.lid) (if x_wf_package p.lpkg then 1 else 0);
       (let (tot, ok) = x_ignore_hyp cfg p.lpkg in Printf.printf "H %d %d\n" (int_of_nat tot) (int_of_nat ok));
@@ -283,7 +306,7 @@ let run_analyze (dump : string) (scan : string) (paths : string) (checks : strin
         List.iter (fun d ->
             let pos = int_of_z d.d_pos in
             let (f, line, col) = locate p pos in
-            Printf.printf "D %s %s %d %d %s %s\n" (hex_encode p.lid) (hex_encode f) line col (string_of_chars d.d_code) (hex_encode (string_of_chars d.d_msg))) ds) pkgs
+            Printf.printf "D %s %s %d %d %s %s\n" (hex_encode p.lid) (hex_encode f) line col (string_of_chars d.d_code) (hex_encode (string_of_chars d.d_msg))) ds)
 
 (* ---------------- regex: <which> <hex string> -> submatch indices ---------------- *)
 let run_regex () =
@@ -312,8 +335,7 @@ let run_regex () =
 (* ---------------- annots <dump> <scan> <paths> <checks>: annotations and ignore markers per package ---------------- *)
 let run_annots (dump : string) (scan : string) (paths : string) (checks : string) =
   let cfg = { scan_tests = (scan = "1"); exclude_paths = unhex_list paths; exclude_checks = unhex_list checks } in
-  let pkgs = List.map conv_pkg (parse_sexps (read_file dump)) in
-  List.iter (fun p ->
+  iter_sexps (read_file dump) (fun sx -> let p = conv_pkg sx in
       Printf.printf "A %s %s\n" (hex_encode p.lid) (hex_encode (ann_summary (x_read_all cfg p.lpkg)));
       match x_ignore_ops cfg p.lpkg with
       | None -> Printf.printf "P %s\n" (hex_encode p.lid)
@@ -323,7 +345,7 @@ let run_annots (dump : string) (scan : string) (paths : string) (checks : string
               let (f1, l1, c1) = locate p (int_of_z s) and (_, l2, c2) = locate p (int_of_z e) in
               Some (Printf.sprintf "%s:%s:%d:%d:%d:%d" (String.concat "," (List.map string_of_chars codes)) (Filename.basename f1) l1 c1 l2 c2)
             | OpGlobal _ -> None) ops in
-        Printf.printf "I %s %s\n" (hex_encode p.lid) (hex_encode (String.concat ";" ms))) pkgs
+        Printf.printf "I %s %s\n" (hex_encode p.lid) (hex_encode (String.concat ";" ms)))
 
 let () =
   match Array.to_list Sys.argv with
